@@ -66,10 +66,12 @@ LcgC == <<15470, 62303>>       \* 1013904223 = 15470*65536 + 62303
 Lcg(x) == AddW(MulW(LcgA, x), LcgC)
 \* the affine map x -> A*x + C composed n times, by squaring: <<A, C>>
 AffCompose(f, g) == <<MulW(f[1], g[1]), AddW(MulW(f[1], g[2]), f[2])>>     \* f after g
+\* (operator arguments are evaluated once; a LET would be re-evaluated at every use and make the recursion exponential)
+AffStep(f, h, odd) == IF odd THEN AffCompose(f, AffCompose(h, h)) ELSE AffCompose(h, h)
 RECURSIVE AffPow(_, _)
-AffPow(f, n) == IF n = 0 THEN <<<<0, 1>>, W0>>
-                ELSE LET h == AffPow(f, n \div 2) hh == AffCompose(h, h) IN IF n % 2 = 1 THEN AffCompose(f, hh) ELSE hh
-LcgN(x, n) == LET f == AffPow(<<LcgA, LcgC>>, n) IN AddW(MulW(f[1], x), f[2])
+AffPow(f, n) == IF n = 0 THEN <<<<0, 1>>, W0>> ELSE AffStep(f, AffPow(f, n \div 2), n % 2 = 1)
+AffApply(f, x) == AddW(MulW(f[1], x), f[2])
+LcgN(x, n) == AffApply(AffPow(<<LcgA, LcgC>>, n), x)
 
 -----------------------------------------------------------------------------
 (* Header                                                                    *)
